@@ -155,7 +155,10 @@ EXPORT errno_t _wctomb_s_chk(int *restrict retvalp, char *restrict dest,
         if (len > 0 && (rsize_t)len < dmax)
             memcpy(dest, mb, len);
     } else {
-        len = *retvalp = wctomb(dest, wc);
+        /* the state query: non-zero if the encoding has shift states. Not a
+           conversion, so there is nothing that can fail */
+        *retvalp = wctomb(NULL, wc);
+        return RCNEGATE(EOK);
     }
 
     if (likely(len > 0 && (rsize_t)len < dmax)) {
